@@ -374,7 +374,8 @@ func c10Case(env *Env, tape *sim.Tape) *CaseOut {
 }
 
 func c10Search(s *Search) {
-	// thorough tier: every unit of up to 4 bytes of every document of up to 64 bytes (the rows
+	// thorough tier: every unit of up to 4 bytes (6 for documents of up to 40 bytes) of every
+	// document of up to 64 bytes (the rows
 	// of the tree's test tables), repeated in place, plain and numbered: the scaling probe
 	// enumerated over a bounded family instead of sampled
 	if s.Env.Tier == "thorough" && os.Getenv("VERIF_RANDOM_ONLY") == "" && os.Getenv("VERIF_C10_MODE") == "" {
@@ -384,7 +385,11 @@ func c10Search(s *Search) {
 				continue
 			}
 			for a := 0; a < len(doc.Data) && s.More(); a++ {
-				for l := 1; l <= 4 && a+l <= len(doc.Data); l++ {
+				maxL := 4
+				if len(doc.Data) <= 40 {
+					maxL = 6 // " none", "0 0 ", "a,b," - a word and its separator
+				}
+				for l := 1; l <= maxL && a+l <= len(doc.Data); l++ {
 					for numbered := uint64(0); numbered < 2; numbered++ {
 						idx++
 						s.Try(idx, sim.ReplayTape([]uint64{91, uint64(di), uint64(a), uint64(l - 1), numbered, 0}))
